@@ -47,9 +47,28 @@ def apply_ptrs(t, ptrs):
     return t
 
 
-def print_expr(node):
+def shroud_tree(node):
+    """Shroud's expression nodes in the reference's tuple form"""
+    from shroud import declast
+    if isinstance(node, declast.BinaryOp):
+        return ("bin", node.op, shroud_tree(node.left), shroud_tree(node.right))
+    if isinstance(node, declast.UnaryOp):
+        return ("unary", node.op, shroud_tree(node.node))
+    if isinstance(node, declast.ParenExpr):
+        return ("paren", shroud_tree(node.node))
+    if isinstance(node, declast.Identifier):
+        if node.args is not None:
+            return ("call", node.name, tuple(shroud_tree(a) for a in node.args))
+        return ("id", node.name)
+    if isinstance(node, declast.Constant):
+        return ("const", node.value)
     from shroud import todict
-    return todict.print_node(node)
+    return ("const", todict.print_node(node))
+
+
+def print_expr(node):
+    """the recorded expression with its tree made visible (so a different grouping of the same tokens shows)"""
+    return refdecl.expr_struct(shroud_tree(node))
 
 
 def shroud_summary(d):
@@ -105,7 +124,7 @@ def norm_type(t):
     if k == "ref":
         return ("ref", norm_type(t[1]))
     if k == "array":
-        return ("array", norm_type(t[1]), refdecl.expr_text(t[2]) if isinstance(t[2], tuple) else t[2])
+        return ("array", norm_type(t[1]), refdecl.expr_struct(t[2]) if isinstance(t[2], tuple) else t[2])
     if k == "func":
         return ("func", norm_type(t[1]), tuple(norm_type(a) for a in t[2]), t[3])
     return t
@@ -231,7 +250,7 @@ def check_accept(pairs, node, ctxname, concrete_reparse=True):
             out["c09"] = "%s name recorded as %r, expected %r" % (refd.kind, decl.name, refd.name)
         elif refd.kind == "enum":
             got = [(m.name, None if m.value is None else print_expr(m.value)) for m in decl.members]
-            exp = [(n, None if v is None else refdecl.expr_text(v)) for (n, v) in refd.extra["members"]]
+            exp = [(n, None if v is None else refdecl.expr_struct(v)) for (n, v) in refd.extra["members"]]
             if got != exp or decl.scope != refd.extra["scope"]:
                 out["c09"] = "enum members recorded as %r (scope %r), expected %r (scope %r)" % (
                     got, decl.scope, exp, refd.extra["scope"])
@@ -430,6 +449,10 @@ SEEDS = [
     ("lib", "size_t strlen2 ( const char * s ) ;"),
     ("lib", "void * foo ( ) const"),
     ("lib", "long long var2"),
+    ("lib", "unsigned short int us ( unsigned long long int a , signed char b )"),
+    ("lib", "long double ld ( short int s , unsigned long int ul , long int li )"),
+    ("lib", "int grid [ 20 - 8 - 4 ] [ 100 / 10 / 5 ]"),
+    ("lib", "enum Level { LOW = 9 - 4 - 1 , MID = LOW * 4 / 2 * 3 , TOP = 2 - LOW + MID }"),
     ("lib", "int & * var1"),
     ("class", "Class1 ( int flag ) +name ( new )"),
     ("class", "~ Class1 ( void )"),
